@@ -429,7 +429,7 @@ func (t *ComparableTree) Insert(key Comparable, value interface{}) {
 		child.lock()
 
 		if index == 0 {
-			if smallest := child.smallest(); key.Less(smallest) {
+			if smallest := parent.runts[0]; key.Less(smallest) {
 				// preemptively update smallest value
 				parent.runts[0] = key
 			}
@@ -562,7 +562,7 @@ func (t *ComparableTree) Update(key Comparable, callback func(interface{}, bool)
 		child.lock()
 
 		if index == 0 {
-			if smallest := child.smallest(); key.Less(smallest) {
+			if smallest := parent.runts[0]; key.Less(smallest) {
 				// preemptively update smallest value
 				parent.runts[0] = key
 			}
